@@ -3,9 +3,11 @@
 patch=$1
 git -C /repo apply $patch || { echo "PATCH DOES NOT APPLY"; exit 2; }
 bad=0
+export VERIF_EVIDENCE_DIR=/tmp/benign-evidence; mkdir -p $VERIF_EVIDENCE_DIR
 for p in C01 C02 C03 C04 C05 C06 C07 C08 C09 C10 C11 C12 C13 C14 C15 C16 C17; do
   out=$(/verif/check $p 2>&1); rc=$?
   if [ $rc != 0 ]; then bad=1; echo "ALARM $p exit=$rc"; echo "$out" | grep -E "fingerprint|MACHINERY" | head -4 | cut -c1-300; fi
 done
 git -C /repo checkout -- .; git -C /repo clean -fdq -- . 2>/dev/null
+rm -rf /tmp/benign-evidence
 [ $bad = 0 ] && echo "NO ALARM for $patch"
